@@ -172,6 +172,7 @@ def runConc : String := Id.run do
 def runCase (payload : String) : String :=
   match payload.splitOn " " with
   | "conc" :: _ => runConc ++ "\tnt=1"
+  | _ :: _ :: "?" :: _ => "RECORD-TIMEOUT"
   | _scn :: gs :: o0 :: steps =>
     match parseObs o0, steps.mapM parseStep with
     | some o0, some steps =>
